@@ -347,7 +347,8 @@ type Exec struct {
 	maxPaths     int
 	want         func(name string, tags []string) bool
 	frameChk     bool
-	pendingForks []*State // alternative paths created by "cases" clauses
+	pendingForks []*State          // alternative paths created by "cases" clauses
+	defs         map[string]string // define-fun name -> definition (to see through names when a function value is loaded)
 }
 
 var splitGoals bool
@@ -409,6 +410,10 @@ func (ex *Exec) define(st *State, hint string, t T) T {
 	ex.nfresh++
 	name := fmt.Sprintf("%s!%d", sanitize(hint), ex.nfresh)
 	st.cmds = append(st.cmds, fmt.Sprintf("(define-fun %s () %s %s)", name, t.Sort, t.S))
+	if ex.defs == nil {
+		ex.defs = map[string]string{}
+	}
+	ex.defs[name] = t.S // names are unique per function run: one table serves all paths
 	return T{name, t.Sort}
 }
 
@@ -1495,6 +1500,11 @@ func (ex *Exec) step(st *State) []*State {
 		if x.CommaOk {
 			ok := ex.fresh(st, "typeok", SBool)
 			fr.vals[x] = Tuple{v, ok}
+		} else if it, ok := under(x.AssertedType).(*types.Interface); ok && types.Implements(x.X.Type(), it) {
+			// interface-to-interface conversion that the static type guarantees (fi.Close on an embedded io.Closer):
+			// the value is unchanged; it panics only on a nil interface
+			ex.safety(st, fr, x, "nil", Not(Eq(v, Nil)))
+			fr.vals[x] = v
 		} else {
 			ex.unsup("type assertion without comma-ok")
 		}
@@ -1660,8 +1670,58 @@ func (ex *Exec) liftFunc(st *State, v T, t types.Type) Val {
 		if cl, ok := st.closures[v.S]; ok {
 			return cl
 		}
+		// a function value read back from a variable: look through the definitions for the store that put it there
+		if r, ok := ex.resolveTerm(v.S, 0); ok {
+			if cl, ok := st.closures[r]; ok {
+				return cl
+			}
+			if r == Nil.S {
+				return Nil
+			}
+		}
 	}
 	return v
+}
+
+// resolveTerm follows define-fun names and select-over-store with syntactically decidable indices
+// (equal text, or two distinct fresh references ref!k) to a simpler term.
+func (ex *Exec) resolveTerm(s string, depth int) (string, bool) {
+	if depth > 200 {
+		return "", false
+	}
+	if d, ok := ex.defs[s]; ok {
+		return ex.resolveTerm(d, depth+1)
+	}
+	if !strings.HasPrefix(s, "(select ") {
+		return s, true
+	}
+	p := splitSexp(s)
+	if len(p) != 3 {
+		return s, true
+	}
+	arr, idx := p[1], p[2]
+	for k := 0; k < 200; k++ {
+		if d, ok := ex.defs[arr]; ok {
+			arr = d
+			continue
+		}
+		if !strings.HasPrefix(arr, "(store ") {
+			return s, true
+		}
+		q := splitSexp(arr)
+		if len(q) != 4 {
+			return s, true
+		}
+		if q[2] == idx {
+			return ex.resolveTerm(q[3], depth+1)
+		}
+		if strings.HasPrefix(q[2], "ref!") && strings.HasPrefix(idx, "ref!") {
+			arr = q[1] // distinct allocations
+			continue
+		}
+		return s, true
+	}
+	return s, true
 }
 
 func (ex *Exec) binop(st *State, fr *Frame, x *ssa.BinOp) T {
